@@ -220,6 +220,7 @@ type c20Out struct {
 	ev          []c20Ev
 	quiescent   bool
 	chanMax     int
+	chanCap     int
 	pendingKeys int
 	active      [2]int
 	maxPar      [2]uint32
@@ -254,7 +255,7 @@ func c20Run(rep *verifutil.Report, rng *verifutil.Rng, pl *c20Plan, bare bool) *
 	m.AddEntryHolder(types[0], holders[0])
 	m.AddEntryHolder(types[1], holders[1])
 	m.Run()
-	out := &c20Out{maxPar: [2]uint32{holders[0].MaxParallelPulls(), holders[1].MaxParallelPulls()}}
+	out := &c20Out{maxPar: [2]uint32{holders[0].MaxParallelPulls(), holders[1].MaxParallelPulls()}, chanCap: cap(m.requests)}
 
 	pph := make([]pushPullHash, pl.H)
 	hidx := map[pushPullHash]int{}
@@ -480,8 +481,8 @@ func c20Analyse(rep *verifutil.Report, pl *c20Plan, out *c20Out, progressOnly bo
 		rep.Violation(sig, fmt.Sprintf("[manager level, %s, pullDelay=%v%s] %s | history of the hash: %s", pl.label, pl.pullDelay, holder, desc,
 			strings.Join(c20History(pl, ev, h, addHash), "; ")), map[string]interface{}{"plan": pl.label, "hash": h})
 	}
-	chanOK := out.chanMax < cap(make(chan pullRequest, 5000))-200 // makeRequest drops silently on a full channel
-	minReqd := make([]int64, pl.H)                                // min call time over announcements already requested
+	chanOK := out.chanMax < out.chanCap-200 // makeRequest drops silently on a full channel
+	minReqd := make([]int64, pl.H)          // min call time over announcements already requested
 	for h := range minReqd {
 		minReqd[h] = math.MaxInt64
 	}
@@ -520,7 +521,7 @@ func c20Analyse(rep *verifutil.Report, pl *c20Plan, out *c20Out, progressOnly bo
 			a.reqT = append(a.reqT, e.T)
 			h := e.Hash
 			// ---- pull-delay lower bound for requests that certainly are fallbacks
-			if a.markSeq >= 0 && a.markSeq < seq && minReqd[h] != math.MaxInt64 {
+			if chanOK && a.markSeq >= 0 && a.markSeq < seq && minReqd[h] != math.MaxInt64 {
 				fallbackChecked++
 				if e.T+c20Slack < minReqd[h]+int64(pl.pullDelay) {
 					viol("pull-delay:fallback-too-early", fmt.Sprintf("request to further announcer p%d (not issued by its own addPush call) received %.2fms after the CALL of the earliest announcement pulled before it (%.2fms); pullDelay is %v",
@@ -539,7 +540,7 @@ func c20Analyse(rep *verifutil.Report, pl *c20Plan, out *c20Out, progressOnly bo
 		}
 	}
 	var candidates []int
-	type stat struct{ fallback, arrBefore, known, capPend, soloFirst, anyFirst, uncovered, covered int }
+	type stat struct{ fallback, arrBefore, known, capPend, soloFirst, anyFirst, uncovered, covered, dup int }
 	var st stat
 	announcedUnknown := 0
 	for h := 0; h < pl.H; h++ {
@@ -638,6 +639,7 @@ func c20Analyse(rep *verifutil.Report, pl *c20Plan, out *c20Out, progressOnly bo
 				}
 			}
 			if len(a.reqSeq) > 1 {
+				st.dup++
 				viol("duplicate-request", fmt.Sprintf("(p%d, hash) was requested %d times (#%v)", pl.anns[i].peer, len(a.reqSeq), a.reqSeq), h)
 			}
 			if a.direct() && a.reqT[0] < tFirst+int64(pl.pullDelay) {
@@ -722,7 +724,7 @@ func c20Analyse(rep *verifutil.Report, pl *c20Plan, out *c20Out, progressOnly bo
 			}
 			if nontrivial {
 				rep.Distinct("manager", pl.kind[h], sb.String())
-				if h%17 == 0 {
+				if sig := sb.String(); pl.label == "generated" && strings.Contains(sig, "F") && strings.Contains(sig, "+") && strings.Contains(sig, "k") {
 					rep.Sample(map[string]interface{}{"level": "manager", "pullDelay": pl.pullDelay.String(), "max_parallel_pulls": out.maxPar[pl.kind[h]],
 						"order_signature": sb.String(), "history": c20History(pl, ev, h, addHash)})
 				}
@@ -762,6 +764,9 @@ func c20Analyse(rep *verifutil.Report, pl *c20Plan, out *c20Out, progressOnly bo
 	rep.Count("hashes_arrival_before_fallback", st.arrBefore)
 	rep.Count("known_item_announcements", st.known)
 	rep.Count("cap_path_pendings", st.capPend)
+	rep.Count("seen_forgotten_after_completed_pull", st.covered)
+	rep.Count("seen_forgotten_in_first_announcer_window", st.uncovered)
+	rep.Count("seen_duplicate_pairs", st.dup)
 	rep.Count("first_announcer_solo_checked", st.soloFirst)
 	rep.Count("first_announcer_overlapping_checked", st.anyFirst)
 	rep.Count("manager_events", len(ev))
@@ -780,7 +785,7 @@ func TestVerifC20Manager(t *testing.T) {
 	defer rep.Write()
 	bareEvery, _ := strconv.Atoi(os.Getenv("VERIF_C20_BARE_EVERY"))
 	var hits uint64
-	verifclock.ArmPoint(c20Point, func() {
+	pointFn := func() {
 		switch atomic.AddUint64(&hits, 1) % 8 {
 		case 0:
 			time.Sleep(200 * time.Microsecond)
@@ -789,8 +794,13 @@ func TestVerifC20Manager(t *testing.T) {
 		case 4:
 			time.Sleep(20 * time.Microsecond)
 		}
-	})
-	defer verifclock.ArmPoint(c20Point, nil)
+	}
+	if os.Getenv("VERIF_C20_NOPOINT") == "" { // experiment switch: leave the delay point a no-op
+		verifclock.ArmPoint(c20Point, pointFn)
+		defer verifclock.ArmPoint(c20Point, nil)
+	} else {
+		rep.Note("delay point left unarmed (VERIF_C20_NOPOINT)")
+	}
 	n := verifutil.Scale(40, 1600) / verifutil.NShards()
 	for i := 0; i < n; i++ {
 		rng := verifutil.Stream(20, 2, uint64(i))
